@@ -88,6 +88,12 @@ pub struct GenCfg {
     /// per-mille rate at which a shape listed in `avoid` is produced anyway
     /// (keeps a known finding visible without stopping the search)
     pub known_per_mille: u32,
+    /// NON-DEFAULT (0 = off, consumes no choices): per-mille rate at which
+    /// `gen_expr_design` emits a *wrap shape* instead of a free expression —
+    /// nested width-growing operators over narrow unsigned operands whose
+    /// intermediate wraps at the context width and is compared / shifted /
+    /// reduced inline (`((a + b) - c) == d`)
+    pub wrap_per_mille: u32,
 }
 
 impl Default for GenCfg {
@@ -141,11 +147,13 @@ impl Default for GenCfg {
             allow_warnings: false,
             avoid: crate::findings::FINDINGS
                 .iter()
+                .filter(|f| !crate::findings::NON_DEFAULT.contains(&f.key))
                 .map(|f| f.key.to_string())
                 .chain(crate::findings::MODULE_LEVEL_FINDINGS.iter().map(|f| f.0.to_string()))
                 .chain(crate::findings::ASSIGN_FINDINGS.iter().map(|f| f.0.to_string()))
                 .collect(),
             known_per_mille: 0,
+            wrap_per_mille: 0,
         }
     }
 }
@@ -1069,6 +1077,91 @@ impl<'c> MGen<'c> {
             }
             e
         })
+    }
+
+    /// Narrow (< 64 bit) unsigned operand of width about `w`: a whole
+    /// variable, the low bits of a wider unsigned variable, or a literal
+    /// (corner-biased, so that additions overflow often).
+    fn wrap_operand(&mut self, d: &mut Draw, sc: &Scope, w: u32) -> Expr {
+        let vars: Vec<DeclId> = self
+            .readable(sc)
+            .into_iter()
+            .filter(|&v| {
+                let dd = &self.m.decls[v];
+                dd.array.is_none() && !dd.ty.signed && matches!(dd.syntax, TySyntax::Logic | TySyntax::Bit) && !matches!(dd.kind, DeclKind::Const | DeclKind::Param | DeclKind::LoopVar)
+            })
+            .collect();
+        if !vars.is_empty() && !d.chance(1, 4) {
+            let v = vars[d.below_usize(vars.len())];
+            let vw = self.m.decls[v].ty.w;
+            if vw <= w {
+                return Expr::var(v);
+            }
+            let lo = d.below(vw - w + 1);
+            return Expr::Ref(Ref {
+                decl: v,
+                idx: None,
+                field: None,
+                sel: if w == 1 { Sel::BitC(CIdx::Num(lo)) } else { Sel::Range(CIdx::Num(lo + w - 1), CIdx::Num(lo)) },
+            });
+        }
+        Expr::lit(Ty::u(w), gen_value(d, w))
+    }
+
+    /// `consumer(((a op1 b) op2 c))`: see `GenCfg::wrap_per_mille`.
+    fn gen_wrap_expr(&mut self, d: &mut Draw, sc: &Scope) -> Expr {
+        let w = *d.pick(&[8u32, 4, 16, 32, 12, 31, 33, 48, 63, 2, 24]);
+        let a = self.wrap_operand(d, sc, w);
+        let b = self.wrap_operand(d, sc, w);
+        let op1 = *d.pick(&[BinOp::Add, BinOp::Sub, BinOp::Mul, BinOp::Shl]);
+        let inner = if op1 == BinOp::Shl { Expr::bin(op1, a, Expr::Lit(Lit::Dec(1 + d.below(w.min(8))))) } else { Expr::bin(op1, a, b) };
+        let c = self.wrap_operand(d, sc, w);
+        let op2 = *d.pick(&[BinOp::Sub, BinOp::Add, BinOp::Sub, BinOp::Mul]);
+        let mid = if d.bool() { Expr::bin(op2, inner, c) } else { Expr::bin(op2, c, inner) };
+        self.class("expr:wrap_shape");
+        self.class(&format!("wrap:{}_{}", op1.name(), op2.name()));
+        match d.below(8) {
+            0 | 1 => {
+                let dd = self.wrap_operand(d, sc, w);
+                let op = *d.pick(&[BinOp::Eq, BinOp::Ne, BinOp::Lt, BinOp::Ge, BinOp::Gt, BinOp::Le]);
+                self.class("wrap:compare");
+                if d.bool() { Expr::bin(op, mid, dd) } else { Expr::bin(op, dd, mid) }
+            }
+            2 => {
+                self.class("wrap:shift");
+                Expr::bin(BinOp::Shr, mid, Expr::Lit(Lit::Dec(1 + d.below(w))))
+            }
+            3 => {
+                self.class("wrap:reduction");
+                Expr::un(*d.pick(&[UnOp::RedOr, UnOp::RedAnd, UnOp::RedXor, UnOp::RedNor]), mid)
+            }
+            4 => {
+                self.class("wrap:condition");
+                let x = self.wrap_operand(d, sc, w);
+                let y = self.wrap_operand(d, sc, w);
+                let z = Expr::lit(Ty::u(w), BigUint::zero());
+                Expr::If(Box::new(Expr::bin(BinOp::Ne, mid, z)), Box::new(x), Box::new(y))
+            }
+            5 => {
+                self.class("wrap:lognot");
+                let z = Expr::lit(Ty::u(w), BigUint::zero());
+                Expr::un(UnOp::LogNot, Expr::bin(BinOp::Ne, mid, z))
+            }
+            6 => {
+                // a third level: the wrapped value feeds another growing operator, then a compare
+                self.class("wrap:nested3");
+                let e = self.wrap_operand(d, sc, w);
+                let f = self.wrap_operand(d, sc, w);
+                Expr::bin(BinOp::Lt, Expr::bin(BinOp::Add, mid, e), f)
+            }
+            _ => {
+                self.class("wrap:inside");
+                let t = Ty::u(w);
+                let lo = gen_value(d, w.min(6));
+                let hi = &lo + BigUint::from(d.below(8));
+                Expr::Inside(Box::new(mid), vec![RangeItem::Incl(Expr::lit(t, lo), Expr::lit(t, hi & mask(w)))], false)
+            }
+        }
     }
 
     /// Condition of a statement (1 bit, self-determined).
